@@ -25,6 +25,8 @@ Definition model_run' (k : sd_case) : list Z * list (Z * Z) :=
   if Z.eqb (sd_scenario k) 3 then s3_run (s3_ops k) (sd_schedule k)
   else if Z.eqb (sd_scenario k) 4 then s4_run (sd_n k) (sd_init k) (sd_client k) (sd_kinds k) (sd_schedule k)
   else if Z.eqb (sd_scenario k) 5 then s5_run (sd_max k) (sd_kinds k) (sd_schedule k)
+  else if Z.eqb (sd_scenario k) 6 then s6_run (sd_n k) (sd_schedule k)
+  else if Z.eqb (sd_scenario k) 7 then s7_run (sd_kinds k) (sd_schedule k)
   else model_run k.
 
 Fixpoint trace_diff (i : Z) (a b : list (Z * Z)) : Z :=
@@ -39,6 +41,8 @@ Definition prop_ok (k : sd_case) : bool :=
   else if Z.eqb (sd_scenario k) 2 then s2_ok (sd_max k) (sd_obs k)
   else if Z.eqb (sd_scenario k) 4 then s4_ok (sd_init k) (sd_kinds k) (sd_obs k)
   else if Z.eqb (sd_scenario k) 5 then s5_ok (sd_max k) (sd_kinds k) (sd_obs k)
+  else if Z.eqb (sd_scenario k) 6 then s6_ok (sd_obs k)
+  else if Z.eqb (sd_scenario k) 7 then s7_ok (sd_obs k)
   else s3_ok (s3_ops k) (sd_obs k).
 
 (* a schedule interleaves when it is not a concatenation of the threads' runs *)
@@ -51,4 +55,4 @@ Definition eval_sd_case (k : sd_case) : list Z :=
   if sd_infeasible k then [-1; -1; 1; b2z (sd_finished k); 0]
   else
   [ first_diff obs (sd_obs k); trace_diff 0 trace (sd_trace k); b2z (prop_ok k); b2z (sd_finished k);
-    b2z (zlen (sd_kinds k) + (if Z.eqb (sd_scenario k) 4 || Z.eqb (sd_scenario k) 5 then 0 else sd_n k) <=? switches (sd_schedule k)) ].
+    b2z (zlen (sd_kinds k) + (if Z.eqb (sd_scenario k) 4 || Z.eqb (sd_scenario k) 5 || Z.eqb (sd_scenario k) 6 || Z.eqb (sd_scenario k) 7 then 0 else sd_n k) <=? switches (sd_schedule k)) ].
